@@ -6,6 +6,7 @@ CONSTANTS
   Tier = "%s"
   MaxReq = %d
   PointerReceiver = %s
+  EchoAllLines = %s
 INVARIANTS Refines OriginReadingsAgree Export
 CHECK_DEADLOCK FALSE
 """
@@ -76,13 +77,15 @@ def fam(run):
     ev_c, nt_c, rule = RULES[run.prop]
     return {
         "name": "cors",
-        "mc": {"quick": [("MC_Cors", MC % ("quick", 2, "FALSE"), "MC_Cors-quick")],
-               "thorough": [("MC_Cors", MC % ("thorough", 2, "FALSE"), "MC_Cors-thorough")]},
-        "mc_must_violate": {t: [("MC_Cors", MC % ("quick", 2, "TRUE"), "MC_Cors-pointer-receiver",
-                                 "filter with a pointer receiver: computed methods persist on the filter object")]
+        "mc": {"quick": [("MC_Cors", MC % ("quick", 2, "FALSE", "FALSE"), "MC_Cors-quick")],
+               "thorough": [("MC_Cors", MC % ("thorough", 2, "FALSE", "FALSE"), "MC_Cors-thorough")]},
+        "mc_must_violate": {t: [("MC_Cors", MC % ("quick", 2, "TRUE", "FALSE"), "MC_Cors-pointer-receiver",
+                                 "filter with a pointer receiver: computed methods persist on the filter object"),
+                                ("MC_Cors", MC % ("quick", 2, "FALSE", "TRUE"), "MC_Cors-echo-all-lines",
+                                 "requested headers validated on the first field line, Allow-Headers echoes every line")]
                             for t in ("quick", "thorough")},
         "driver": "cors", "plans": plans, "replay_plan": replay_plan, "replay_context": context,
-        "trace_module": "CorsTrace", "trace_const": "CONSTANT PointerReceiver = FALSE\n",
+        "trace_module": "CorsTrace", "trace_const": "CONSTANTS PointerReceiver = FALSE\n  EchoAllLines = FALSE\n",
         "reg_names": ["line", "judged", "disallowed", "allowedOrigins", "preflights", "refused", "granted"],
         "eval_counter": ev_c, "nontrivial_counter": nt_c, "rule": rule,
         "split": shards_by_group("cfg"),
